@@ -32,6 +32,7 @@ type Engine struct {
 	thorough bool
 	dumpDir string
 	loadS   float64
+	pureDepsOf map[string][]string
 }
 
 func (e *Engine) fnID(k string) int {
@@ -176,6 +177,17 @@ func (e *Engine) needFun(vc *FuncVC, name string, args []string, ret string) {
 	}
 	vc.funDecls[name] = fmt.Sprintf("(declare-fun %s (%s) %s)", name, strings.Join(args, " "), ret)
 	vc.funOrder = append(vc.funOrder, name)
+}
+
+// notePure remembers which version ghosts a pure method depends on, so that specifications can
+// apply the same function (x.M() in a contract).
+func (e *Engine) notePure(method string, c *Contract) {
+	e.mu.Lock()
+	defer e.mu.Unlock()
+	if e.pureDepsOf == nil {
+		e.pureDepsOf = map[string][]string{}
+	}
+	e.pureDepsOf[method] = pureDeps(c)
 }
 
 func (e *Engine) needBox(vc *FuncVC, sort string) {
